@@ -275,6 +275,7 @@ func run(t *T) {
 	wait := startTargeted(t) // contains the one case known to hang; it overlaps with everything else
 	runJSONSystematic(t)
 	runText(t, seeds)
+	runNumericSweep(t, seeds)
 	runJSON(t)
 	runHTTP(t)
 	wait()
@@ -368,6 +369,96 @@ func runText(t *T, seeds []seed) {
 			res.class = "text/" + first + "/read-ok"
 		}
 		o = guard(&cur, func() { runSeq(&cur, file, parseOther(other), seq, choices) })
+		if o.bad() {
+			res.fails = append(res.fails, toFinding(o, input()))
+		}
+		return res
+	})
+	report(t, rs)
+}
+
+// runNumericSweep: deterministic.  For every seed text (one per SEC code and fixture), every record line and every
+// maximal run of digits in it (plus the 4 columns in which CTX/ATX entries carry their addenda count), the run is
+// replaced by a negative number, by all nines and by blanks; the text is read under nil options and under SkipAll +
+// CustomTraceNumbers, and the returned file goes through Create / Validate / Write.  Numbers the library parses with
+// Atoi and then uses as a size, an index or a divisor show up here whatever the random mutations happen to hit.
+func runNumericSweep(t *T, seeds []seed) {
+	type job struct {
+		s          seed
+		line, a, b int
+		val        string
+		opts       optSet
+	}
+	var jobs []job
+	maxSeeds := t.Budget(40)
+	for si, s := range seeds {
+		if si >= maxSeeds || len(s.data) > 8000 {
+			continue
+		}
+		lines := splitLines(s.data)
+		for li, l := range lines {
+			if len(l) < 94 || l[0] == '9' && strings.Count(l, "9") == len(l) {
+				continue
+			}
+			var spans [][2]int
+			for i := 1; i < len(l); {
+				if l[i] >= '0' && l[i] <= '9' {
+					j := i
+					for j < len(l) && l[j] >= '0' && l[j] <= '9' {
+						j++
+					}
+					if j-i >= 2 {
+						spans = append(spans, [2]int{i, j})
+					}
+					i = j
+				} else {
+					i++
+				}
+			}
+			if l[0] == '6' {
+				spans = append(spans, [2]int{54, 58})
+			}
+			for _, sp := range spans {
+				w := sp[1] - sp[0]
+				for _, v := range []string{"-" + strings.Repeat("0", w-2) + "2", strings.Repeat("9", w), strings.Repeat(" ", w)} {
+					for _, o := range []optSet{{isNil: true}, optsByName("SkipAll", "CustomTraceNumbers")} {
+						jobs = append(jobs, job{s, li, sp[0], sp[1], v, o})
+					}
+				}
+			}
+		}
+	}
+	other := otherFileText(t.R.Fork(5))
+	rs := parallel(len(jobs), func(i int) caseResult {
+		j := jobs[i]
+		lines := splitLines(j.s.data)
+		lines[j.line] = replaceCols(lines[j.line], j.a, j.b, j.val)
+		text := []byte(strings.Join(lines, "\n"))
+		kind := "negative"
+		if j.val[0] == '9' {
+			kind = "nines"
+		} else if j.val[0] == ' ' {
+			kind = "blank"
+		}
+		res := caseResult{key: hash(text) + "|" + j.opts.key(), nontrivial: true, class: "text/numeric-sweep/" + kind}
+		input := func() map[string]any {
+			return map[string]any{"source": j.s.name, "mutation": fmt.Sprintf("line %d columns %d-%d := %q", j.line+1, j.a+1, j.b, j.val),
+				"text_go_quoted": clipQ(text), "validate_opts": j.opts.names(), "sequence": systematicSeq}
+		}
+		var file *ach.File
+		var cur atomic.Value
+		cur.Store("Reader.Read")
+		o := guard(&cur, func() {
+			rd := ach.NewReader(bytes.NewReader(text))
+			rd.SetValidation(j.opts.build())
+			f, _ := rd.Read()
+			file = &f
+		})
+		if o.bad() {
+			res.fails = append(res.fails, toFinding(o, input()))
+			return res
+		}
+		o = guard(&cur, func() { runSeq(&cur, file, parseOther(other), systematicSeq, make([]bool, len(systematicSeq))) })
 		if o.bad() {
 			res.fails = append(res.fails, toFinding(o, input()))
 		}
@@ -600,21 +691,30 @@ func targetedCases(r *gen.Rand) []sysCase {
 	return cases
 }
 
+// evalSysCase decodes under nil options; evalSysCaseWith under the given ones (custom trace numbers and origin
+// bypass switch off the re-sequencing that otherwise repairs short or empty trace numbers before they are sliced)
 func evalSysCase(c sysCase, other []byte) caseResult {
+	a := evalSysCaseWith(c, other, nil, "")
+	b := evalSysCaseWith(c, other, &ach.ValidateOpts{CustomTraceNumbers: true, BypassOriginValidation: true}, "CustomTraceNumbers,BypassOriginValidation")
+	a.fails = append(a.fails, b.fails...)
+	return a
+}
+
+func evalSysCaseWith(c sysCase, other []byte, opts *ach.ValidateOpts, optNames string) caseResult {
 	systematicSeq := systematicSeq
 	if c.seq != nil {
 		systematicSeq = c.seq
 	}
-	res := caseResult{key: c.tag + "|" + c.path + "=" + c.kind + "|" + systematicSeq[0], nontrivial: true}
+	res := caseResult{key: c.tag + "|" + c.path + "=" + c.kind + "|" + systematicSeq[0] + "|" + optNames, nontrivial: true}
 	input := func() map[string]any {
-		return map[string]any{"base": c.tag + " generator: " + c.baseName, "replaced": c.path + "=" + c.kind, "json": clipQ(c.doc), "api": "FileFromJSON", "sequence": systematicSeq,
-			"replay": "f, _ := ach.FileFromJSON(json); then the sequence on f"}
+		return map[string]any{"base": c.tag + " generator: " + c.baseName, "replaced": c.path + "=" + c.kind, "json": clipQ(c.doc), "api": "FileFromJSONWith", "validate_opts": optNames, "sequence": systematicSeq,
+			"replay": "f, _ := ach.FileFromJSONWith(json, opts); then the sequence on f"}
 	}
 	var file *ach.File
 	var ferr error
 	var cur atomic.Value
 	cur.Store("FileFromJSON")
-	o := guard(&cur, func() { file, ferr = ach.FileFromJSON(c.doc) })
+	o := guard(&cur, func() { file, ferr = ach.FileFromJSONWith(c.doc, opts) })
 	cls := "json-systematic/" + c.tag + "/"
 	if o.bad() {
 		res.class = cls + "DECODE-FAILED"
